@@ -896,39 +896,48 @@ class Executor:
             ctx.info["over"] = it
             return self.list_elem(it, node)
         if isinstance(it, OpaqueV) and it.meta.get("kind") in ("enumerate", "zip"):
-            parts = it.meta["parts"]
             idx = Num(NF.atom(Atom("lv", tag)), (), "int", meta={"loopvar": ctx})
             self.atom_shapes[Atom("lv", tag).key] = ()
-            elems = []
-            for p in parts:
-                if isinstance(p, RangeV):
-                    elems.append(Num(p.lo.nf + idx.nf * p.step.nf, (), "int"))
-                elif isinstance(p, Num):
-                    elems.append(self.index_num(p, [idx], node))
-                elif isinstance(p, ListV):
-                    elems.append(self.list_elem(p, node))
-                elif isinstance(p, TupleV):
-                    elems.append(OpaqueV(f"elem({valkey(p)})"))
-                else:
-                    elems.append(self.generic_element(p, LoopCtx(tag + "'", "for", node, ctx.func), node))
             ctx.info["over"] = it
-            for p in parts:
-                if isinstance(p, Num) and p.shape is not None and len(p.shape) >= 1:
-                    ctx.info["range"] = (NF.const(0), lift(p.shape[0]), NF.const(1))
-                    break
-                if isinstance(p, RangeV):
-                    ctx.info["range"] = (NF.const(0), app("rangelen", p.lo.nf, p.hi.nf, p.step.nf) if p.step.nf.as_const() != 1 else p.hi.nf - p.lo.nf, NF.const(1))
-                    break
-            if it.meta["kind"] == "enumerate":
-                start = it.meta.get("start", Num(NF.const(0), (), "int"))
-                return TupleV([Num(idx.nf + start.nf, (), "int", meta={"loopvar": ctx}), elems[0]])
-            return TupleV(elems)
+            rng = self._seq_len(it)
+            if rng is not None:
+                ctx.info["range"] = (NF.const(0), rng, NF.const(1))
+            return self._elem_at(it, idx, ctx, node)
         if isinstance(it, OpaqueV):
             ctx.info["over"] = it
             return OpaqueV(f"elem({it.key})", {"elem_of": it})
         if isinstance(it, BoundExt) or isinstance(it, DictV):
             return OpaqueV(f"elem({valkey(it)})")
         raise Undecided(f"iteration over {it!r}", node)
+
+    def _seq_len(self, p):
+        if isinstance(p, Num) and p.shape is not None and len(p.shape) >= 1:
+            return lift(p.shape[0])
+        if isinstance(p, RangeV):
+            return p.hi.nf - p.lo.nf if p.step.nf.as_const() == 1 else app("rangelen", p.lo.nf, p.hi.nf, p.step.nf)
+        if isinstance(p, OpaqueV) and p.meta.get("kind") in ("enumerate", "zip"):
+            for q in p.meta["parts"]:
+                r = self._seq_len(q)
+                if r is not None:
+                    return r
+        return None
+
+    def _elem_at(self, p, idx: Num, ctx, node):
+        """element number idx of an iterable (shared position variable for zip/enumerate)"""
+        if isinstance(p, RangeV):
+            return Num(p.lo.nf + idx.nf * p.step.nf, (), "int")
+        if isinstance(p, Num):
+            return self.index_num(p, [idx], node)
+        if isinstance(p, ListV):
+            return self.list_elem(p, node)
+        if isinstance(p, OpaqueV) and p.meta.get("kind") == "zip":
+            return TupleV([self._elem_at(q, idx, ctx, node) for q in p.meta["parts"]])
+        if isinstance(p, OpaqueV) and p.meta.get("kind") == "enumerate":
+            start = p.meta.get("start", Num(NF.const(0), (), "int"))
+            return TupleV([Num(idx.nf + start.nf, (), "int", meta={"loopvar": ctx}), self._elem_at(p.meta["parts"][0], idx, ctx, node)])
+        if isinstance(p, TupleV):
+            return OpaqueV(f"elem({valkey(p)})")
+        return OpaqueV(f"elem({valkey(p)})", {"elem_of": p})
 
     def list_elem(self, lst: ListV, node):
         if lst.elem is not None:
@@ -1163,7 +1172,7 @@ class Executor:
         sym_op = {ast.Lt: "<", ast.LtE: "<=", ast.Gt: ">", ast.GtE: ">=", ast.Eq: "==", ast.NotEq: "!="}[type(op)]
         if isinstance(a, Num) and isinstance(b, Num) and a.cond is None and b.cond is None:
             shape = self.bshape(a.shape, b.shape, node)
-            return Num(None, shape, "bool", cond=Cond.cmp(sym_op, a.nf, b.nf))
+            return Num(None, shape, "bool", cond=Cond.cmp(sym_op, self.as_nf(a, node), self.as_nf(b, node)))
         if isinstance(a, StrV) and isinstance(b, StrV) and sym_op in ("==", "!="):
             if a.s is not None and b.s is not None:
                 r = (a.s == b.s) if sym_op == "==" else (a.s != b.s)
